@@ -568,7 +568,7 @@ pub fn scenario_from_bytes<S: Debug>(strategy: &BoxedStrategy<S>, data: &[u8]) -
     let mut tape = data.to_vec();
     // pad with a non-zero xorshift tail: PassThrough spins forever on an exhausted tape
     let mut x = hash_of(data) | 1;
-    while tape.len() < data.len() + 8192 {
+    while tape.len() < data.len() + 262_144 {
         x ^= x << 13;
         x ^= x >> 7;
         x ^= x << 17;
